@@ -221,9 +221,13 @@ func oracle(c Case) error {
 		if bytes.Equal(M1, M2) {
 			return fmt.Errorf("M1 does not depend on the password")
 		}
-		return nil
+		// answers handed out stay what they were while further answers are computed
+		kept.Keep("an SRP answer (A | M1)", func() []byte { return append(append([]byte{}, A...), M1...) })
+		return kept.Verify()
 	})
 }
+
+var kept hx.Retain
 
 func mutatePassword(t *rapid.T, pw string) string {
 	r := []rune(pw)
